@@ -286,6 +286,42 @@ impl PlainHdr {
     }
 }
 
+/// Verification hooks: raw view of the header state (all fields, including the
+/// flag byte and the node ids of absent optional parts).
+#[cfg(rs_matter_verif)]
+impl PlainHdr {
+    /// `(flags, sess_id, sec_flags, ctr, src_nodeid, dst_nodeid)`
+    pub fn verif_raw(&self) -> (u8, u16, u8, u32, u64, u64) {
+        (
+            self.flags.bits(),
+            self.sess_id,
+            self.sec_flags.bits(),
+            self.ctr,
+            self.src_nodeid,
+            self.dst_nodeid,
+        )
+    }
+
+    /// A header in the given raw state; `None` if a flag byte has undeclared bits.
+    pub fn verif_from_raw(
+        flags: u8,
+        sess_id: u16,
+        sec_flags: u8,
+        ctr: u32,
+        src_nodeid: u64,
+        dst_nodeid: u64,
+    ) -> Option<Self> {
+        Some(Self {
+            flags: MsgFlags::from_bits(flags)?,
+            sess_id,
+            sec_flags: SecFlags::from_bits(sec_flags)?,
+            ctr,
+            src_nodeid,
+            dst_nodeid,
+        })
+    }
+}
+
 impl fmt::Display for PlainHdr {
     fn fmt(&self, f: &mut fmt::Formatter<'_>) -> fmt::Result {
         if !self.flags.is_empty() {
